@@ -132,6 +132,12 @@ def r13_kernel_guards(ctx, res):
             if not (isinstance(d, ast.BinOp) and isinstance(d.op, ast.Div)):
                 continue
             den = d.right
+            if isinstance(den, ast.Name):
+                # a hoisted denominator (`steepness = p.n * l.dv`): read through its single definition
+                from ..astutil import single_defs
+                dd = single_defs(fi.node, fi.params).get(den.id)
+                if dd is not None:
+                    den = dd
             if not (isinstance(den, ast.BinOp) and isinstance(den.op, ast.Mult)):
                 continue
             tl, tr = eng.types_at(fi, den.left), eng.types_at(fi, den.right)
@@ -146,8 +152,18 @@ def r13_kernel_guards(ctx, res):
             dom = g.dominating_edges(nodes[0]) if nodes else []
             ok = False
             why = "no dominating guard excludes a zero dot product"
+            den_keys = {txt(ast.BinOp(left=U, op=ast.Mult(), right=V)), txt(ast.BinOp(left=V, op=ast.Mult(), right=U))}
             for c, _, l in dom:
                 e = g.nodes[c].ast
+                # null(U * V) / abs(U * V) < eps: false edge (the same product, read through hoisted locals)
+                ex = expand_locals(fi.node, e, fi.params)
+                if l == "F" and isinstance(ex, ast.Call) and isinstance(ex.func, ast.Name) and ex.func.id == "null" and len(ex.args) == 1 \
+                        and txt(ex.args[0]) in den_keys:
+                    ok, why = True, "false edge of `%s` (tolerant zero test of the denominator)" % txt(e)
+                if l == "F" and isinstance(ex, ast.Compare) and len(ex.ops) == 1 and isinstance(ex.ops[0], (ast.Lt, ast.LtE)) \
+                        and isinstance(ex.left, ast.Call) and isinstance(ex.left.func, ast.Name) and ex.left.func.id == "abs" and ex.left.args \
+                        and txt(ex.left.args[0]) in den_keys and "get_eps" in txt(ex.comparators[0]):
+                    ok, why = True, "false edge of `%s` (tolerant zero test of the denominator)" % txt(e)
                 # U.orthogonal(V) false edge
                 if l == "F" and isinstance(e, ast.Call) and isinstance(e.func, ast.Attribute) and e.func.attr == "orthogonal" \
                         and len(e.args) == 1 and {txt(e.func.value), txt(e.args[0])} == {txt(U), txt(V)}:
